@@ -19,11 +19,11 @@ CONTRACTS[F + "contract_pair"] = dict(
         ("new_char_index += 1", 1, "src[new_char_index] = i + 1 + (1 if skip_char else 0)"),
         ("new_char_index += 1", 2, "src[new_char_index] = len(char_list)"),
     ],
-    ensures=[
-        "len(result) <= len(char_list)",
+    returns="int[]",
+    ensures=["len(result) <= len(char_list)", "unchanged(char_list)"],
+    ensures_ghost=[  # proved here; they mention the ghost witness, so callers do not see them
         "src[0] == 0 and src[len(result)] == len(char_list)",
         _WITNESS.format(n="len(result)", out="result"),
-        "unchanged(char_list)",
     ],
     loops={
         "for#1": dict(invariant=[
@@ -34,4 +34,86 @@ CONTRACTS[F + "contract_pair"] = dict(
             _WITNESS.format(n="new_char_index", out="new_char_list"),
         ]),
     },
+)
+
+# contract_and_count_pairs: same witness postcondition for the returned array, plus key-safety of every
+# pair_counts access (all are guarded by `in` or are stores).
+CONTRACTS[F + "contract_and_count_pairs"] = dict(
+    params=dict(char_list="int[]", pair_to_contract="(int,int)", pair_counts="dict[pair,int]", new_code="int"),
+    requires=[],
+    modifies=["pair_counts"],
+    returns="(int[],dict[pair,int])",
+    ghost_init="src = np.zeros(len(char_list) + 1, dtype=np.int64)",
+    ghost_after=[
+        ("new_char_index += 1", 1, "src[new_char_index] = i + 1 + (1 if skip_char else 0)"),
+        ("new_char_index += 1", 2, "src[new_char_index] = len(char_list)"),
+    ],
+    ensures=["len(result[0]) <= len(char_list)", "unchanged(char_list)"],
+    returns_alias_tuple=None,
+    ensures_ghost=[
+        "src[0] == 0 and src[len(result[0])] == len(char_list)",
+        _WITNESS.format(n="len(result[0])", out="result[0]"),
+        "same(result[1], pair_counts)",
+    ],
+    loops={
+        "for#1": dict(invariant=[
+            "0 <= new_char_index and new_char_index <= i and src[0] == 0",
+            "src[new_char_index] == i + (1 if skip_char else 0)",
+            "implies(skip_char, i >= 1 and i + 1 <= len(char_list))",
+            "len(src) == len(char_list) + 1 and len(new_char_list) == len(char_list) and len_char_list == len(char_list)",
+            _WITNESS.format(n="new_char_index", out="new_char_list"),
+        ]),
+    },
+)
+
+CONTRACTS[F + "bpe_encode"] = dict(
+    params=dict(chars="str", code_list="list[(int,int)]", max_char_code="int"),
+    requires=["max_char_code >= 0"],
+    returns="int[]",
+    ensures=["len(result) <= len(chars)"],
+    loops={
+        "for#1": dict(invariant=["len(compressed_chars) == len(chars)"]),
+        "for#2": dict(invariant=["len(compressed_chars) <= len(chars)"]),
+    },
+)
+
+CONTRACTS[F + "count_pairs"] = dict(
+    params=dict(char_list="list[int[]]"), requires=[], returns="dict[pair,int]", ensures=[],
+    local_types=dict(result="dict[pair,int]"),
+)
+
+CONTRACTS[F + "unicode_string_to_int_array"] = dict(
+    params=dict(string="str"), requires=[], returns="int[]",
+    ensures=["len(result) == len(string)", "forall(0, len(result), lambda k: result[k] == ord(string[k]))"],
+    loops={"for#1": dict(invariant=["len(result) == len(string)", "forall(0, i, lambda k: result[k] == ord(string[k]))"])},
+)
+
+CONTRACTS[F + "murmurhash"] = dict(
+    params=dict(key="int[]", seed="int"), requires=["seed >= 0", "forall(0, len(key), lambda k: key[k] >= 0)"], returns="int",
+    ensures=["result >= 0"],
+    loops={"for#1": dict(invariant=["h >= 0"])},
+)
+
+# LZ parse: `start <= end` keeps every slice well formed; size bookkeeping
+CONTRACTS[F + "lempel_ziv_based_encode"] = dict(
+    params=dict(string="str", dictionary="dict[str,int]", hash_function="func", max_size="int"),
+    func_params={"hash_function": dict(returns="keyfn")},
+    requires=[],
+    modifies=["dictionary"],
+    ensures=["same(result, dictionary)"],
+    loops={"for#1": dict(invariant=["0 <= start and start <= end", "current_size >= card(dictionary)"])},
+)
+
+CONTRACTS[F + "counts_to_csr_data"] = dict(
+    params=dict(count_dict="dict[int,int]", column_dict="dict[int,int]"),
+    requires=["not same(count_dict, column_dict)"],
+    modifies=["column_dict"],
+    ensures=[
+        "len(result[0]) == len(result[1]) and len(result[0]) == card(count_dict)",
+        "unchanged(count_dict)",
+    ],
+    loops={"for#1": dict(invariant=[
+        "len(indices) == _k_for1 and len(data) == _k_for1",
+        "col_dict_size >= card(column_dict)",
+    ])},
 )
